@@ -1,15 +1,25 @@
-(* C08 — the solver is equivariant under cyclic permutation of the axes.  Model: model/Yee.v; lemmas: proofs/Yee_perm.v *)
+(* C08 — the solver is equivariant under cyclic permutation of the axes.
+   Model: model/Yee.v; lemmas: proofs/Yee_perm.v (layer-free, equality of functions), proofs/Yee_perm_pml.v (with CPML layers, cell by cell) *)
 From Coq Require Import List Arith.
-From FV Require Import base.Scalar base.Cplx model.Yee proofs.Yee_steps proofs.Yee_perm.
+From FV Require Import base.Scalar base.Cplx model.Yee proofs.Yee_steps proofs.Yee_perm proofs.Yee_pml_loop proofs.Yee_perm_pml.
 Import ListNotations.
 
-(* PARTIAL in scope: PML-free scenes of the model (any grid, per-axis ghost factors and widths, diagonal material tensors,
-   conductivities, wall masks, source injections).  Pscene relabels x -> y -> z -> x: the new x axis is the old z axis, arrays
-   become (P f) i j k = f j k i and vector fields (P vz, P vx, P vy).  Equalities are equalities of functions. *)
-Theorem C08_forward_perm_partial : forall (K : Fld) (sc : scene K), pmls K sc = [] ->
+(* Pscene_pml relabels x -> y -> z -> x: the new x axis is the old z axis; arrays become (P f) i j k = f j k i, vector fields
+   (P vz, P vx, P vy), diagonal material tensors and wall masks likewise, every CPML layer gets axis (a+1) mod 3 and permuted slice
+   extents, source injections are relabelled.  rel_state s s' : s' carries the relabelled fields and psi accumulators of s (cell by cell).
+   For every scene of the model whose layers have a valid axis, and any number of steps, running the relabelled scene on the relabelled
+   state gives the relabelled result.  (The model keeps the source's per-axis code paths: the a == 0 / 1 / 2 branches of the CPML loop
+   and the per-axis difference operators.) *)
+Theorem C08_forward_perm : forall (K : Fld) (sc : scene K), Forall (axis_ok K) (pmls K sc) ->
+  forall n s s', rel_state K s s' -> rel_state K (iterQ K sc n s) (iterQ K (Pscene_pml K sc) n s').
+Proof. exact forward_perm_pml_n. Qed.
+Print Assumptions C08_forward_perm.
+
+(* without layers the statement is an equality of functions *)
+Theorem C08_forward_perm_layer_free : forall (K : Fld) (sc : scene K), pmls K sc = [] ->
   forall n s s', fE s' = PV K (fE s) -> fH s' = PV K (fH s) -> tstep s' = tstep s ->
   fE (iterP K (Pscene K sc) n s') = PV K (fE (iterP K sc n s)) /\
   fH (iterP K (Pscene K sc) n s') = PV K (fH (iterP K sc n s)) /\
   tstep (iterP K (Pscene K sc) n s') = tstep (iterP K sc n s).
 Proof. intros K sc Hp n. exact (forward_perm_n K sc Hp n). Qed.
-Print Assumptions C08_forward_perm_partial.
+Print Assumptions C08_forward_perm_layer_free.
